@@ -185,6 +185,15 @@ def harness(name, variant, sources, extra=(), link_lib=True, instrument_harness=
                 or open(sigf).read() != sig or _deps_newer(out + ".d", out)
                 or (link_lib and os.path.getmtime(libpath(variant)) > os.path.getmtime(out)))
         need = need or any(not os.path.exists(o_) or os.path.getmtime(s_) > os.path.getmtime(o_) for _, s_, o_ in pre)
+        # -MF holds the dependencies of the last source only when several sources are compiled in one
+        # command: be conservative and rebuild when any harness / engine source is newer than the binary
+        if not need:
+            t_out = os.path.getmtime(out)
+            for sub in ("harness", "engine"):
+                dd = os.path.join(VERIF, sub)
+                for fn in os.listdir(dd):
+                    if fn.endswith((".hpp", ".cpp", ".h", ".inc")) and os.path.getmtime(os.path.join(dd, fn)) > t_out:
+                        need = True
         if need:
             for c, s_, o_ in pre:
                 rc, o = _run(c)
